@@ -12,7 +12,8 @@
      SEncode  json.dumps of the dict (bytes exist before anything is written)
      SWrite   stream.write + flush: the file holds the new bytes; when no SEncode
               came before (lxml's tree.write(stream)) serialisation happens here
-     SClose   uri.close_stream()
+     SFlush   stream.flush(): the bytes written reach the file
+     SClose   uri.close_stream(): flushes/closes the stream of the resource's OWN uri only
    An exception stops the save and keeps whatever the file holds at that
    moment (nothing in `save` catches it).  `Stuck` flags an order that cannot be
    executed at all (write before open, encode before build, ...): it is a model
@@ -29,29 +30,35 @@ Open Scope Z_scope.
 (* ------------------------------------------------------------------ *)
 (* Part 1: order of effects                                            *)
 
-Inductive step : Type := SOpen | SBuild | SEncode | SWrite | SClose.
+Inductive step : Type := SOpen | SBuild | SNs | SEncode | SWrite | SFlush | SClose.
+(* SNs    the root element is created with the namespace map collected during the traversal
+          (lxml Element(tag, nsmap=...)): raises for a package without nsURI or with an nsPrefix
+          that is not an XML name
+   SFlush stream.flush(): what was written reaches the file *)
 
 Definition content := option (list Z).
 
 Inductive outcome : Type := Done | Raised | Stuck.
 
-(* what one save has to do: number of positions at which the tree/dict
-   construction can fail, number of positions at which encoding can fail,
-   bytes of the document *)
-Record job : Type := { j_nbuild : nat; j_nenc : nat; j_new : list Z }.
+(* what one save has to do: number of positions at which the tree/dict construction can fail,
+   at which encoding can fail, at which the namespace step can fail; whether the target is the
+   resource's own URI (then uri.close_stream() closes the stream that was written) or an
+   `output=` URI object kept by the caller (then it does not); bytes of the document *)
+Record job : Type := { j_nbuild : nat; j_nenc : nat; j_nns : nat; j_own : bool; j_new : list Z }.
 
 Record mach : Type := {
-  m_file : content;      (* the target *)
-  m_open : bool;         (* an output stream on the target is open *)
-  m_tree : bool;         (* the tree / dict exists *)
-  m_bytes : bool         (* the document bytes exist *)
+  m_file : content;               (* what a reader of the target sees *)
+  m_open : bool;                  (* an output stream on the target is open *)
+  m_tree : bool;                  (* the tree / dict exists *)
+  m_bytes : bool;                 (* the document bytes exist *)
+  m_pending : option (list Z)     (* written to the stream, not yet in the file *)
 }.
 
 Definition mach_init (old : content) : mach :=
-  {| m_file := old; m_open := false; m_tree := false; m_bytes := false |}.
+  {| m_file := old; m_open := false; m_tree := false; m_bytes := false; m_pending := None |}.
 
-(* a planted fault is a position; positions < nbuild hit the construction,
-   the next nenc ones hit the encoder *)
+(* a planted fault is a position; positions < nbuild hit the construction, the next nenc ones
+   the encoder, the next nns ones the namespace step *)
 Definition hits_build (j : job) (fault : option nat) : bool :=
   match fault with Some p => Nat.ltb p (j_nbuild j) | None => false end.
 Definition hits_encode (j : job) (fault : option nat) : bool :=
@@ -59,30 +66,50 @@ Definition hits_encode (j : job) (fault : option nat) : bool :=
   | Some p => Nat.leb (j_nbuild j) p && Nat.ltb p (j_nbuild j + j_nenc j)
   | None => false
   end.
+Definition hits_ns (j : job) (fault : option nat) : bool :=
+  match fault with
+  | Some p => Nat.leb (j_nbuild j + j_nenc j) p && Nat.ltb p (j_nbuild j + j_nenc j + j_nns j)
+  | None => false
+  end.
+
+Definition flushed (m : mach) : content :=
+  match m_pending m with Some b => Some b | None => m_file m end.
 
 Definition exec_step (j : job) (fault : option nat) (s : step) (m : mach) : outcome * mach :=
   match s with
   | SOpen =>
-    (Done, {| m_file := Some []; m_open := true; m_tree := m_tree m; m_bytes := m_bytes m |})
+    (Done, {| m_file := Some []; m_open := true; m_tree := m_tree m; m_bytes := m_bytes m; m_pending := None |})
   | SBuild =>
     if hits_build j fault then (Raised, m)
-    else (Done, {| m_file := m_file m; m_open := m_open m; m_tree := true; m_bytes := m_bytes m |})
+    else (Done, {| m_file := m_file m; m_open := m_open m; m_tree := true; m_bytes := m_bytes m;
+                   m_pending := m_pending m |})
+  | SNs =>
+    if hits_ns j fault then (Raised, m) else (Done, m)
   | SEncode =>
     if negb (m_tree m) then (Stuck, m)
     else if hits_encode j fault then (Raised, m)
-    else (Done, {| m_file := m_file m; m_open := m_open m; m_tree := m_tree m; m_bytes := true |})
+    else (Done, {| m_file := m_file m; m_open := m_open m; m_tree := m_tree m; m_bytes := true;
+                   m_pending := m_pending m |})
   | SWrite =>
     if m_open m && m_tree m
     then
       (* without a previous SEncode the document is serialised while it is written
          (lxml's tree.write): an encoding fault then strikes on the opened target *)
       if negb (m_bytes m) && hits_encode j fault then (Raised, m)
-      else (Done, {| m_file := Some (j_new j); m_open := true; m_tree := true; m_bytes := true |})
+      else (Done, {| m_file := m_file m; m_open := true; m_tree := true; m_bytes := true;
+                     m_pending := Some (j_new j) |})
+    else (Stuck, m)
+  | SFlush =>
+    if m_open m
+    then (Done, {| m_file := flushed m; m_open := true; m_tree := m_tree m; m_bytes := m_bytes m;
+                   m_pending := None |})
     else (Stuck, m)
   | SClose =>
-    if m_open m
-    then (Done, {| m_file := m_file m; m_open := false; m_tree := m_tree m; m_bytes := m_bytes m |})
-    else (Stuck, m)
+    (* self.uri.close_stream(): closes (and flushes) the stream of the resource's OWN uri only *)
+    if j_own j && m_open m
+    then (Done, {| m_file := flushed m; m_open := false; m_tree := m_tree m; m_bytes := m_bytes m;
+                   m_pending := None |})
+    else (Done, m)
   end.
 
 Fixpoint exec (j : job) (fault : option nat) (order : list step) (m : mach) : outcome * mach :=
@@ -95,18 +122,21 @@ Fixpoint exec (j : job) (fault : option nat) (order : list step) (m : mach) : ou
     end
   end.
 
+(* the content a reader finds right after save() returned or raised *)
 Definition run_save (j : job) (order : list step) (fault : option nat) (old : content)
   : outcome * content :=
   let (o, m) := exec j fault order (mach_init old) in (o, m_file m).
 
 (* the order of the code before the repair (kept as a recorded witness) *)
-Definition legacy_order : list step := [SOpen; SBuild; SEncode; SWrite; SClose].
+Definition legacy_order : list step := [SOpen; SBuild; SEncode; SWrite; SFlush; SClose].
 
 (* the shapes of order for which Props/C16.v has theorems *)
 Definition order_kind (order : list step) : nat :=
   match order with
-  | [SBuild; SEncode; SOpen; SWrite; SClose] => 1   (* all that can raise precedes the opening *)
-  | [SBuild; SOpen; SWrite; SClose] => 2            (* built first; serialised while written *)
+  | [SBuild; SEncode; SOpen; SWrite; SFlush; SClose] => 1
+      (* JsonResource.save: all that can raise precedes the opening *)
+  | [SBuild; SNs; SBuild; SOpen; SWrite; SFlush; SClose] => 2
+      (* XMIResource.save: traversal, namespace step, assembly; then open; serialised while written *)
   | _ => 0
   end.
 
@@ -148,7 +178,7 @@ Definition observation (os : list sobj) : list (list Z) := map so_obs os.
 
 (* ------------------------------------------------------------------ *)
 (* token codec for the correspondence:
-   fmt ; fault(-1 = none) ; nbuild ; nenc ; has_old ; |old| ; old.. ; |new| ; new..
+   fmt ; fault(-1 = none) ; nbuild ; nenc ; nns ; own ; has_old ; |old| ; old.. ; |new| ; new..
    answer: outcome(0 done,1 raised,2 stuck) ; has_content ; |c| ; c.. *)
 
 Fixpoint take {A} (n : nat) (l : list A) : list A :=
@@ -161,12 +191,13 @@ Definition outcome_code (o : outcome) : Z :=
 
 Definition run_savefs_with (order_xmi order_json : list step) (t : list Z) : list Z :=
   match t with
-  | fmt :: fault :: nb :: ne :: has_old :: lo :: rest =>
+  | fmt :: fault :: nb :: ne :: nn :: own :: has_old :: lo :: rest =>
     let old := take (Z.to_nat lo) rest in
     match drop (Z.to_nat lo) rest with
     | ln :: rest2 =>
       let new := take (Z.to_nat ln) rest2 in
-      let j := {| j_nbuild := Z.to_nat nb; j_nenc := Z.to_nat ne; j_new := new |} in
+      let j := {| j_nbuild := Z.to_nat nb; j_nenc := Z.to_nat ne; j_nns := Z.to_nat nn;
+                  j_own := own =? 1; j_new := new |} in
       let order := if fmt =? 0 then order_xmi else order_json in
       let f := if fault <? 0 then None else Some (Z.to_nat fault) in
       let (o, c) := run_save j order f (if has_old =? 1 then Some old else None) in
